@@ -527,6 +527,12 @@ fn fmt_case(l: Layout, raw: u128, spec: &Spec) -> String {
     format!("text fmt {} {:#x} {}", l.name(), raw, spec.to_string())
 }
 
+/// write the rendering into a sink that refuses after `cap` bytes; the result (Ok or the sink's Err) is returned
+fn render_limited(v: &dyn AllFmt, spec: &Spec, cap: usize) -> bool {
+    let mut sink = render::Limited { cap, got: 0 };
+    render_gen::render_to(&mut sink, v, spec).is_ok()
+}
+
 fn fmt_job(e: &Entry, tier: Tier, c11: bool) -> JobOut {
     let l = e.l;
     let mut rep = Report::new("text", "", "");
@@ -615,6 +621,30 @@ fn fmt_job(e: &Entry, tier: Tier, c11: bool) -> JobOut {
                 let Some(b0) = subject(|| render(&*v, &plain)) else { continue };
                 let (neg0, body) = split_sign(&b0);
                 let _ = neg_value;
+                // environment answer: a sink that refuses bytes after the first k (k = 0, 1, half, all but one).
+                // Only unwinding is judged (no value or flag combination panics); the formatter must hand the
+                // sink's error back, which it can only do by not panicking.
+                if !c11 {
+                    for (si, spec) in [plain, Spec { tr, plus: true, alt: true, zero: true, align: 0, width: Some(b0.len() + 5), prec }, Spec { tr, plus: false, alt: false, zero: false, align: 6, width: Some(b0.len() + 3), prec }].into_iter().enumerate() {
+                        for cap in [0usize, 1, b0.len() / 2, b0.len().saturating_sub(1)] {
+                            rep.states += 1;
+                            rep.transitions += 1;
+                            rep.judged += 1;
+                            let ok = subject(|| render_limited(&*v, &spec, cap)).is_some();
+                            if !ok {
+                                rep.violation(Violation {
+                                    key: format!("{} {}:failing-sink", l.class(), TRAITS[tr]),
+                                    diff: "panic".into(),
+                                    case: format!("text fmt-sink {} {:#x} {} {}", l.name(), raw, spec.to_string(), cap),
+                                    observed: format!("panic while writing into a sink that accepts {} bytes (spec variant {})", cap, si),
+                                    expected: "an fmt::Error (or a result), no unwinding".into(),
+                                    note: format!("unflagged rendering is {:?}", b0),
+                                    kf: None,
+                                });
+                            }
+                        }
+                    }
+                }
                 for plus in [false, true] {
                     for alt in [false, true] {
                         for zero in [false, true] {
@@ -820,6 +850,30 @@ fn cmd_replay(a: &[String]) -> i32 {
             } else {
                 println!("DIFFERS");
                 1
+            }
+        }
+        "fmt-sink" => {
+            let l = Layout::parse(&a[1]).unwrap();
+            let e = tab.iter().find(|e| e.l == l).unwrap();
+            let raw = u128::from_str_radix(a[2].trim_start_matches("0x"), 16).unwrap();
+            let spec = Spec::parse(&a[3]).expect("format spec");
+            let cap: usize = a[4].parse().expect("sink capacity");
+            let v = (e.boxed)(raw);
+            let got = subject(|| render_limited(&*v, &spec, cap));
+            println!("call:     write!(sink accepting {} bytes, {:?}, {}::from_bits({:#x}))", cap, spec.to_string(), l.name(), raw);
+            match got {
+                Some(ok) => {
+                    println!("observed: returned {}", if ok { "Ok" } else { "Err" });
+                    println!("expected: a result, no unwinding");
+                    println!("AGREES");
+                    0
+                }
+                None => {
+                    println!("observed: panic");
+                    println!("expected: a result, no unwinding");
+                    println!("DIFFERS (panic)");
+                    1
+                }
             }
         }
         "fmt" => {
